@@ -1272,6 +1272,11 @@ def interplin(vin, xin, uin):
         xm[w] = 0
 
     xmp1 = xm + 1
+
+    # differences of unsigned integers wrap around
+    v, x, u = [
+        a.astype("f8") if a.dtype.kind == "u" else a for a in (v, x, u)
+    ]
     return (u - x[xm]) * (v[xmp1] - v[xm]) / (x[xmp1] - x[xm]) + v[xm]
 
 
